@@ -15,7 +15,7 @@ SX == INSTANCE SequencesExt
 
 \* MaxDepth only sizes FSCore's own call alphabet, which this module does not use: keep it 0 in configs,
 \* TLC evaluates the instantiated constant definitions eagerly.
-CONSTANTS Names, MaxDepth, Perms, Datas, Times, RootOps, MaxTreeDepth, MaxNodes,
+CONSTANTS Names, MaxDepth, Perms, Datas, Times, RootOps, MaxTreeDepth, MaxNodes, FlagSets,
           Points,      \* candidate mount points (paths); each has its own file-system id
           BadPoints,   \* paths at which AddMount must fail (file, missing, root)
           MaxMounts,   \* layouts: all subsets of Points of at most this size
